@@ -21,6 +21,7 @@ import (
 	"fmt"
 	"sort"
 	"strings"
+	"unicode/utf8"
 
 	"verif/common"
 	"verif/triex"
@@ -66,8 +67,9 @@ func main() {
 
 var assumptions = []string{
 	"small-scope: bounds per family are listed in coverage.sections; outside: longer patterns, larger pattern sets, longer texts",
-	"patterns and keys are valid UTF-8; only texts are arbitrary byte strings",
-	"on text that is not valid UTF-8 only soundness (no panic, no match that is not a byte-for-byte occurrence) is demanded",
+	"patterns are valid UTF-8; texts and keys are arbitrary byte strings",
+	"text that is not valid UTF-8 is judged like any other text (byte-for-byte occurrences of the patterns, which are valid UTF-8)",
+	"keys that are not valid UTF-8: no panic, and every PrefixSearch / FuzzySearch result is an inserted pattern (PrefixSearch: starting with the key bytes, each once); whether a pattern whose first rune shares leading bytes with such a key counts as starting with it is not demanded",
 	"FuzzySearch is checked for soundness only (results are inserted patterns)",
 	"a case is one (family, pattern set, insertion history, text) with Match+FindAll, or one (family, pattern set, insertion history, key) with PrefixSearch+FuzzySearch",
 }
@@ -148,7 +150,7 @@ func visit(sh *triex.Shard, v *triex.Visit) {
 					v.Case("text", text, nil),
 					"func TestReplay(t *testing.T) {\n" + triex.GoSetup(v.Set, v.Hist) + fmt.Sprintf("\tif tr.Match(%q) {\n\t\tt.Fatal(\"Match = true, want false\")\n\t}\n}", text)
 			})
-		case !m && total > 0 && t.Valid:
+		case !m && total > 0: // "for every text": also on text that is not valid UTF-8
 			sh.Col.Report("Match|false-negative|"+o.TextClass(t), v.Size(text), func() (string, any, string) {
 				return fmt.Sprintf("Match(%q) = false, want true: the text contains %q", text, expectAll(o, want)),
 					v.Case("text", text, nil),
@@ -189,7 +191,7 @@ func visit(sh *triex.Shard, v *triex.Visit) {
 					kind = "extra-occurrence"
 					break
 				}
-				if got[i] < want[i] && t.Valid {
+				if got[i] < want[i] {
 					kind = "missing-occurrence"
 				}
 			}
@@ -200,9 +202,6 @@ func visit(sh *triex.Shard, v *triex.Visit) {
 				sort.Strings(res)
 				exp := expectAll(o, want)
 				rel := "want exactly (as a multiset)"
-				if !t.Valid {
-					rel = "want a sub-multiset of"
-				}
 				return fmt.Sprintf("FindAll(%q) = %q (sorted), %s %q", text, res, rel, exp),
 					v.Case("text", text, map[string]any{"got_sorted": triex.Q(res), "want": triex.Q(exp)}),
 					"func TestReplay(t *testing.T) {\n" + triex.GoSetup(v.Set, v.Hist) +
@@ -239,6 +238,17 @@ func visit(sh *triex.Shard, v *triex.Visit) {
 			ok := len(res) == len(exp)
 			for i := 0; ok && i < len(res); i++ {
 				ok = res[i] == exp[i]
+			}
+			if !utf8.ValidString(key) {
+				// a key that is not made of runes: whether a pattern whose first rune merely shares
+				// leading bytes with it "starts with" it is not settled by the property; demanded is
+				// soundness — every result an inserted pattern that starts with the key bytes, once
+				ok = true
+				for i, e := range res {
+					if o.Index(e) < 0 || !strings.HasPrefix(e, key) || (i > 0 && res[i-1] == e) {
+						ok = false
+					}
+				}
 			}
 			if !ok {
 				sh.Col.Report("PrefixSearch|wrong-result|"+o.KeyClass(key), v.Size(key), func() (string, any, string) {
